@@ -38,7 +38,7 @@ def userwins_jobs(tier):
 def saveinit_jobs(tier):
     return [dict(name="c16_saveinit", harness="saveinit.c",
                  real=LIB + ["src/lib/str/ares_strsplit.c", "src/lib/ares_options.c", "src/lib/ares_update_servers.c", "src/lib/dsa/ares_llist.c"],
-                 support=SUP + ["slist_ref.c"], unwind=20, unwindset=us({"vp_bytes.0": 200, "memcmp.0": 18, "ares_in_addr_to_sconfig_llist.0": 2, "ares_servers_update.0": 2,
+                 support=SUP + ["slist_ref.c", "lock_ghost.c"], unwind=20, unwindset=us({"vp_bytes.0": 200, "memcmp.0": 18, "ares_in_addr_to_sconfig_llist.0": 2, "ares_servers_update.0": 2,
                                "ares_server_find.0": 3, "ares_server_isdup.0": 2, "ares_servers_remove_stale.0": 3,
                                "ares_server_in_newconfig.0": 3, "slist_link.0": 3, "ares_llist_clear.0": 3, "ares_slist_destroy.0": 3,
                                "ares_save_opt_servers.0": 3, "ares_servers_trim_single.0": 3, "ares_slist_node_find.0": 3,
